@@ -20,24 +20,61 @@ var c07Exprs = []string{
 	"let $x = a, $y = b in [$x, $y]", "a[*].b[*].c", "a[?b && c].d", "{p: a, q: b, r: c}", "sort_by(arr, &k)", "group_by(arr, &g)", "map(&[@, k], arr)", "arr[1:]", "arr[::-1]", "to_string(@)",
 	"sum(longs)", "longs[0] + longs[1]", "sort(longs)", "max(longs) == `323456789012345678`", "longs[*] | [?@ > `200000000000000000`]", "to_number('123456789012345678901') + longs[2]",
 	"a[*].[$.b, d]", "map(&$.n, arr)", "arr[?k == $.n || g == $.b]", "map(&[$.s, @.k], arr)", "sort(`[3,1,2,7,5,4,6,0,9,8,11,10,13,12]`)",
+	"nested[:2][]", "nested[::2][]", "nested[]", "[nested[0], strs][]", "nested[*][1:]", "reverse(nested[0])", "sort(nested[0])", "join('-', strs)", "join(s, strs)", "to_string(nested)", "merge(o, o)", "zip(nested[0], strs)",
 	"n + n * n", "sum(nums) / length(nums)", "arr[*].k | sort(@)", "o.* | sort(@)", "max_by(arr, &k).g", "not_null(missing, a, b)", "join(',', strs)", "split(s, ',')", "a == a && o == o", "[a, b][].b",
 }
 
+// spare rebuilds every array with three unused elements of capacity holding sentinels: a write beyond len shows in the
+// snapshot of the shared documents.
+func spare(v any) any {
+	switch x := v.(type) {
+	case []any:
+		a := make([]any, len(x), len(x)+3)
+		for i, e := range x {
+			a[i] = spare(e)
+		}
+		full := a[:cap(a)]
+		for i := len(x); i < cap(a); i++ {
+			full[i] = fmt.Sprintf("sentinel-%d", i)
+		}
+		return a
+	case map[string]any:
+		for k, e := range x {
+			x[k] = spare(e)
+		}
+	}
+	return v
+}
+
 func c07DocA() any {
-	return core.JSONDoc(`{"a":[{"b":[{"c":1},{"c":2}],"c":true,"d":"x"},{"b":[{"c":3}],"c":false,"d":"y"}],"b":"bee","c":3,"o":{"z":1,"y":2},
-		"arr":[{"k":3,"g":"p"},{"k":1,"g":"q"},{"k":2,"g":"p"}],"n":2,"nums":[1,2,3.5],"strs":["x","y"],"s":"a,b,c",
-		"longs":[123456789012345678,223456789012345678,323456789012345678,1.23456789012345678e30]}`)
+	return spare(core.JSONDoc(`{"a":[{"b":[{"c":1},{"c":2}],"c":true,"d":"x"},{"b":[{"c":3}],"c":false,"d":"y"}],"b":"bee","c":3,"o":{"z":1,"y":2},
+		"arr":[{"k":3,"g":"p"},{"k":1,"g":"q"},{"k":2,"g":"p"}],"n":2,"nums":[1,2,3.5],"strs":["x","y"],"s":"a,b,c","nested":[[1,2,3],[4],[5]],
+		"longs":[123456789012345678,223456789012345678,323456789012345678,1.23456789012345678e30]}`))
 }
 
 func c07DocB() any {
-	return core.JSONDoc(`{"a":[{"b":[{"c":9}],"c":true,"d":"z"}],"b":null,"c":[1],"o":{"x":7},"arr":[{"k":"b","g":"r"},{"k":"a","g":"r"}],"n":10,"nums":[4],"strs":[],"s":"solo","longs":[987654321098765432,887654321098765432,787654321098765432,9.87654321098765432e30]}`)
+	return spare(core.JSONDoc(`{"a":[{"b":[{"c":9}],"c":true,"d":"z"}],"b":null,"c":[1],"o":{"x":7},"arr":[{"k":"b","g":"r"},{"k":"a","g":"r"}],"n":10,"nums":[4],"strs":["p","q","r"],"s":"solo","nested":[[6],[7,8]],"longs":[987654321098765432,887654321098765432,787654321098765432,9.87654321098765432e30]}`))
+}
+
+// c07DocBad makes most expressions of the menu fail half-way (a wrong type after the first elements): the prelude of the
+// "after a failure" scenarios.
+func c07DocBad() any {
+	return spare(core.JSONDoc(`{"a":[{"b":[{"c":1},5],"c":true,"d":"x"},7],"b":[1],"c":"x","o":{"z":[1],"y":"s"},"arr":[{"k":3,"g":"p"},{"k":"x","g":2},{"k":null}],"n":"x","nums":[1,2,"x"],"strs":["x","y",0.5],"s":5,
+		"nested":[[1,2,3],4,[5]],"longs":[123456789012345678,"x",true]}`))
 }
 
 // a scenario: which calls run concurrently
 type c07Scenario struct {
 	Expr  string
-	Calls []string // "E(A)", "E(B)", "S(A)", "S(B)", "C"
+	Calls []string // "E(A)", "E(B)", "S(A)", "S(B)", "C"; "S(A)=<expr>": one-shot Search of another expression
+	Pre   []string // calls made one after the other before the concurrent ones start ("S(Bad)", "E(Bad)", ...)
 }
+
+const c07Sep = " ; "
+
+// pairs of different expressions that start from the same part of the same document
+var c07Pairs = [][2]string{{"nested[:2][]", "nested[::2][]"}, {"nested[]", "nested[:2][]"}, {"sort(nested[0])", "reverse(nested[0])"}, {"join('-', strs)", "join(',', strs)"}, {"sort_by(arr, &k)", "arr[::-1]"},
+	{"[nested[0], strs][]", "nested[0][1:]"}, {"merge(o, o)", "o.*"}, {"to_string(nested)", "nested[*][0]"}}
 
 func c07Scenarios(thorough bool) []c07Scenario {
 	var out []c07Scenario
@@ -47,7 +84,18 @@ func c07Scenarios(thorough bool) []c07Scenario {
 	}
 	for _, e := range c07Exprs {
 		for _, sh := range shapes {
-			out = append(out, c07Scenario{e, sh})
+			out = append(out, c07Scenario{Expr: e, Calls: sh})
+		}
+		// the same calls after the expression has failed half-way through an evaluation
+		out = append(out, c07Scenario{Expr: e, Calls: []string{"E(A)", "E(B)"}, Pre: []string{"E(Bad)", "S(Bad)"}})
+		out = append(out, c07Scenario{Expr: e, Calls: []string{"S(A)", "S(B)"}, Pre: []string{"S(Bad)"}})
+	}
+	for _, p := range c07Pairs {
+		out = append(out, c07Scenario{Expr: p[0], Calls: []string{"S(A)", "S(A)=" + p[1]}})
+		out = append(out, c07Scenario{Expr: p[0], Calls: []string{"E(A)", "S(A)=" + p[1]}})
+		out = append(out, c07Scenario{Expr: p[0], Calls: []string{"S(A)", "S(A)=" + p[1]}, Pre: []string{"S(Bad)", "S(Bad)=" + p[1]}})
+		if thorough {
+			out = append(out, c07Scenario{Expr: p[0], Calls: []string{"S(A)", "S(A)=" + p[1], "S(B)=" + p[1]}})
 		}
 	}
 	return out
@@ -57,13 +105,24 @@ type c07World struct {
 	expr  *jmespath.Expression
 	docA  any
 	docB  any
+	bad   any
 	obs   []core.Obs
 	tasks []*sched.Task
 }
 
+// c07Saved: the package-level state of the library as it was before its first use in this process; every execution
+// starts from it (a library that keeps a cache or a pool would otherwise make the executions depend on each other)
+var c07Saved *core.SavedGlobals
+
 func c07Build(sc c07Scenario) *c07World {
-	w := &c07World{docA: c07DocA(), docB: c07DocB()}
+	if c07Saved != nil && len(verifrt.UsesSync) > 0 {
+		c07Saved.Restore()
+	}
+	w := &c07World{docA: c07DocA(), docB: c07DocB(), bad: c07DocBad()}
 	w.expr, _ = core.Compile(sc.Expr)
+	for _, call := range sc.Pre {
+		w.do(sc.Expr, call)
+	}
 	w.obs = make([]core.Obs, len(sc.Calls))
 	for i, call := range sc.Calls {
 		i, call := i, call
@@ -73,15 +132,22 @@ func c07Build(sc c07Scenario) *c07World {
 }
 
 func (w *c07World) do(expr, call string) core.Obs {
+	if i := strings.Index(call, "="); i > 0 {
+		call, expr = call[:i], call[i+1:]
+	}
 	switch call {
 	case "E(A)":
 		return core.ExprSearch(w.expr, w.docA)
 	case "E(B)":
 		return core.ExprSearch(w.expr, w.docB)
+	case "E(Bad)":
+		return core.ExprSearch(w.expr, w.bad)
 	case "S(A)":
 		return core.Search(expr, w.docA)
 	case "S(B)":
 		return core.Search(expr, w.docB)
+	case "S(Bad)":
+		return core.Search(expr, w.bad)
 	}
 	e, o := core.Compile(expr)
 	if e != nil {
@@ -99,6 +165,8 @@ func (w *c07World) shared() string {
 	b.WriteString(core.Snapshot(w.docA))
 	b.WriteString("|")
 	b.WriteString(core.Snapshot(w.docB))
+	b.WriteString("|")
+	b.WriteString(core.Snapshot(w.bad))
 	if len(verifrt.UsesSync) == 0 {
 		// with synchronisation primitives in the library, package-level state may legitimately change under a lock
 		// (a cache, a pool): it is then judged by outcomes and by the race-detector pass, not by this hash
@@ -114,15 +182,16 @@ func init() {
 	core.Register(&core.Check{
 		ID:    "C07",
 		Title: "compiled expressions and Search are safe for concurrent use",
-		Rule: "2 (thorough: also 3) goroutines call Expression.Search / Search / Compile concurrently on one shared compiled Expression and shared read-only documents; the library yields at every function entry and the explorer decides which goroutine runs between two yields; " +
-			"quick: every schedule with at most 2 preemptions (iterative bounding 0, 1, 2); thorough: every reachable scheduler state (vector of yield counts x hash of shared state, with state-key pruning) for 2 goroutines and bound 3 for 3 goroutines; " +
-			"in every state the hash of everything shared (AST behind the Expression, both documents incl. hidden capacity, every package-level variable) must equal its initial value, and at the end every call's outcome must equal its solo outcome; " +
-			"a third phase runs the same scenario bodies free-running under the race detector; non-trivial = a schedule with at least one context switch; distinct_nontrivial counts distinct schedules among them",
+		Rule: "2 (thorough: also 3) goroutines call Expression.Search / Search / Compile concurrently on one shared compiled Expression and shared read-only documents (arrays with spare capacity holding sentinels), the same expression or two different ones that start from the same part of a document, " +
+			"from a fresh state and after the expression has failed half-way on a third document; the library yields at every function entry, every loop iteration and every operation on a sync type (sync.Mutex, RWMutex, Once, Pool and Map are replaced by scheduler-aware models: a lock wait is a blocked task, all tasks blocked is a deadlock), and the explorer decides which goroutine runs between two yields; " +
+			"quick: every schedule with at most 2 preemptions (iterative bounding 0, 1, 2; 1 for calls of more than 150 steps); thorough: every reachable scheduler state (vector of yield counts, with state-key pruning) for 2 goroutines when the library keeps no state, else bound 3; " +
+			"every execution starts from the package-level state the process had before its first library call (saved and restored by deep copy); in every state the hash of everything shared (AST behind the Expression, the documents incl. hidden capacity, and - when the library uses no sync primitive - every package-level variable) must equal its initial value, and at the end every call's outcome must equal its solo outcome; " +
+			"a second phase runs the same scenario bodies free-running under the race detector; non-trivial = a schedule with at least one context switch; distinct_nontrivial counts distinct schedules among them",
 		Phases: []core.Phase{{Name: "schedules", Build: "instr", Fn: c07Run}, {Name: "race-detector", Build: "race", Procs: 4, Fn: c07RunRace, CrashIsViolation: true}},
 		Judge:  c07Judge,
 		Assumptions: []string{
-			"scheduling points are function entries of the four packages; a race confined to straight-line code is visible through the shared-state hash (any write to shared state is reported whatever the interleaving) and through the free-running race-detector pass",
-			"the instrumenter reports no use of sync, sync/atomic, go statements or channels in the library (re-established on every run); hardware memory ordering is not modelled",
+			"scheduling points are function entries, loop iterations and sync operations of the four packages; a race confined to straight-line code is visible through the shared-state hash (any write to shared state is reported whatever the interleaving) and through the free-running race-detector pass",
+			"the instrumenter reports on every run which sync types it replaced by models and which uses it could not model (sync.WaitGroup, sync.Cond, go statements, channels): with any of the latter the search is limited to non-preemptive schedules and says so under caps; hardware memory ordering is not modelled",
 		},
 	})
 }
@@ -163,8 +232,12 @@ func c07Violation(sc c07Scenario, kind string, choices []int, exp, act string) *
 	for i, c := range choices {
 		cs[i] = fmt.Sprint(c)
 	}
-	return &core.Violation{Sig: "C07/" + kind + "/" + fnOf(sc.Expr), Desc: fmt.Sprintf("%v on %q, schedule %v", sc.Calls, sc.Expr, trunc(strings.Join(cs, ""), 80)),
-		Point: map[string]any{"expr": sc.Expr, "calls": strings.Join(sc.Calls, " "), "schedule": strings.Join(cs, ","), "doc": strings.Join(sc.Calls, " ")}, Expected: exp, Actual: act}
+	desc := fmt.Sprintf("%v on %q, schedule %v", sc.Calls, sc.Expr, trunc(strings.Join(cs, ""), 80))
+	if len(sc.Pre) > 0 {
+		desc = fmt.Sprintf("after %v: ", sc.Pre) + desc
+	}
+	return &core.Violation{Sig: "C07/" + kind + "/" + fnOf(sc.Expr), Desc: desc,
+		Point: map[string]any{"expr": sc.Expr, "calls": strings.Join(sc.Calls, c07Sep), "pre": strings.Join(sc.Pre, c07Sep), "schedule": strings.Join(cs, ","), "doc": strings.Join(sc.Calls, " ")}, Expected: exp, Actual: act}
 }
 
 // c07Execute runs one schedule and checks the oracles; it returns the execution.
@@ -177,6 +250,9 @@ func c07Execute(r *core.Run, sc c07Scenario, want []core.Obs, prefix []int) (*sc
 	r.Add("evaluations", int64(len(sc.Calls)))
 	r.Add("transitions", int64(len(x.Steps)))
 	r.Beat()
+	if x.Aborted == sched.Deadlock {
+		return x, c07Violation(sc, "deadlock", x.Choices(), "every call returns", "every unfinished call waits for a lock held by another")
+	}
 	if w.shared() != init {
 		w2 := c07Build(sc)
 		init2 := w2.shared()
@@ -206,6 +282,9 @@ func c07Run(r *core.Run) {
 	if len(verifrt.UsesSync)+len(verifrt.UsesGo)+len(verifrt.UsesChan) > 0 {
 		r.Note(fmt.Sprintf("the library now uses synchronisation or goroutines (sync: %v, go: %v, chan: %v): yield points at function entries may no longer be sufficient", verifrt.UsesSync, verifrt.UsesGo, verifrt.UsesChan))
 	}
+	if c07Saved == nil {
+		c07Saved = core.SaveGlobals() // before the first use of the library in this process
+	}
 	// first use: nothing of the library has run in this process yet. A call that writes package-level state (a lazily
 	// built table, a memo, a counter) without any synchronisation primitive in the library is a write that two first
 	// calls would race on, whatever the later schedules look like.
@@ -217,11 +296,14 @@ func c07Run(r *core.Run) {
 	r.Bound("expressions", len(c07Exprs))
 	r.Bound("package_level_variables_hashed", len(verifrt.Globals))
 	bound := 2
-	if len(verifrt.UsesSync) > 0 {
-		// a goroutine parked at a yield while holding a real lock would block the others outside the scheduler's
-		// control: only schedules without preemption are explored (every order of whole calls)
+	if len(verifrt.SyncModelled) > 0 {
+		r.Note(fmt.Sprintf("sync types replaced by scheduler-aware models (every operation a scheduling point, lock waits visible as blocked tasks): %v", verifrt.SyncModelled))
+	}
+	if len(verifrt.SyncUnmodelled)+len(verifrt.UsesGo)+len(verifrt.UsesChan) > 0 {
+		// a goroutine parked at a yield while it holds a primitive the scheduler does not model would block the others
+		// outside the scheduler's control: only schedules without preemption are explored (every order of whole calls)
 		bound = 0
-		r.Cap("library uses sync primitives: schedule search limited to non-preemptive schedules")
+		r.Cap(fmt.Sprintf("library uses synchronisation the scheduler does not model (%v): schedule search limited to non-preemptive schedules", verifrt.SyncUnmodelled))
 	}
 	r.Bound("preemption_bound_quick", bound)
 	for i, sc := range scs {
@@ -252,7 +334,7 @@ func c07Run(r *core.Run) {
 			c07AllStates(r, sc, want)
 		} else {
 			b := bound
-			if len(verifrt.UsesSync) > 0 {
+			if bound == 0 {
 				b = 0
 			} else if r.Thorough() {
 				b = 3
@@ -444,7 +526,7 @@ func c07RunRace(r *core.Run) {
 			continue
 		}
 		r.Begin(map[string]any{"expr": e, "doc": "free-running race pass"})
-		sc := c07Scenario{e, []string{"E(A)", "E(B)", "S(A)", "C"}}
+		sc := c07Scenario{Expr: e, Calls: []string{"E(A)", "E(B)", "S(A)", "C"}, Pre: []string{"S(Bad)", "E(Bad)"}}
 		w := c07Build(sc)
 		solo := make([]core.Obs, len(sc.Calls))
 		for j, c := range sc.Calls {
@@ -489,9 +571,15 @@ func c07Judge(r *core.Run, phase string, pt map[string]any) *core.Violation {
 		}
 		return c07FirstUse()
 	}
-	sc := c07Scenario{Expr: pstr(pt, "expr"), Calls: strings.Fields(pstr(pt, "calls"))}
+	sc := c07Scenario{Expr: pstr(pt, "expr"), Calls: strings.Split(pstr(pt, "calls"), c07Sep)}
+	if p := pstr(pt, "pre"); p != "" {
+		sc.Pre = strings.Split(p, c07Sep)
+	}
 	if !verifrt.Instrumented {
 		return nil
+	}
+	if c07Saved == nil {
+		c07Saved = core.SaveGlobals()
 	}
 	want, v := c07Solo(sc)
 	if v != nil {
